@@ -382,7 +382,9 @@ class Facts:
             text = text.replace("std::sync::Arc", "std::rc::Rc")
         self.j = json.loads(text)
         # normalisation passes (see inline.py): constant switches folded, unknown helper functions inlined
-        from . import inline
+        from . import inline, renames
+        # private functions renamed by a maintainer get their old names back (renames.py)
+        self.renamed = renames.undo_renames(self.j, renames.load_signatures()) if use_inliner else {}
         self.folded = sum(inline.fold_const_switches(b) for b in self.j["bodies"])
         self.inlined = inline.inline_helpers(self.j["bodies"], inline.load_known()) if use_inliner else {}
         from . import normalize
